@@ -703,7 +703,20 @@ class C10(core.Check):
                     raw = getattr(r.obj, "raw_object", None)
                     known = classes.get(r.cls) is not None
                     shared = sum(1 for x in refs if x.cls == r.cls) > 1
-                    if known or shared or not hasattr(raw, "close") or r.born < 0:
+                    def occurrences(v, depth=0):
+                        # how many places (roots, items of lists, cached items of lazy lists) hold this very object
+                        if depth > 6:
+                            return 0
+                        k_ = 1 if v is r.obj else 0
+                        if isinstance(v, LL):
+                            return k_ + sum(occurrences(x, depth + 1) for x in list(v.generated))
+                        if isinstance(v, list):
+                            return k_ + sum(occurrences(x, depth + 1) for x in v)
+                        return k_
+                    held = sum(occurrences(v) for _, v in roots())
+                    # closing the source of a value that something else still holds (an item of another list, a second
+                    # root) would be the HARNESS changing a shared value, not a consumer abandoning its own
+                    if known or shared or held > 1 or not hasattr(raw, "close") or r.born < 0:
                         log.append(dict(ev="close", skipped="value already known or shared"))
                         continue
                     _, err = guarded(lambda: raw.close())
